@@ -24,6 +24,7 @@ type C12Case struct {
 	OutStyle string `json:"out_style"` // relative | nested | absolute | dashed
 	Level    string `json:"level"`     // static | build | driver
 	Twice    bool   `json:"twice"`     // generate a second time elsewhere and compare
+	Dirty    bool   `json:"dirty"`     // the output directory already holds a (longer) earlier generation
 }
 
 func loadBase(name string) (*schema.Schema, *schema.TypeMap, error) {
@@ -79,11 +80,20 @@ func checkC12(c *C12Case, rec *evid.Rec) (vs []pbt.Violation) {
 	defer w.Remove()
 	pkg := "fixgenpkg"
 	out, wantPkg := outDir(c.OutStyle, pkg, w)
+	if c.Dirty && !mustReject {
+		// an earlier generation of the same schema is already there, every file longer than it will be
+		if _, failed0, _ := w.Generate(s, tm, out); !failed0 {
+			old, _ := FileSet(w.Abs(out))
+			for name, body := range old {
+				_ = os.WriteFile(filepath.Join(w.Abs(out), name), []byte(body+strings.Repeat("\n// left over from an earlier generation", 3)+"\n"), 0o644)
+			}
+		}
+	}
 	output, failed, err := w.Generate(s, tm, out)
 	if err != nil {
 		return []pbt.Violation{pbt.V("harness", "%v", err)}
 	}
-	desc := fmt.Sprintf("base %s, %d ops %v, output dir style %s", c.Base, len(c.Ops), log, c.OutStyle)
+	desc := fmt.Sprintf("base %s, %d ops %v, output dir style %s, dirty %v", c.Base, len(c.Ops), log, c.OutStyle, c.Dirty)
 	rec.Extra("programs", 1)
 	sampleNow := func(extra map[string]any) {
 		if rec.WantSample() && structural > 0 {
@@ -200,6 +210,9 @@ func checkC12(c *C12Case, rec *evid.Rec) (vs []pbt.Violation) {
 	}
 	rec.Case(fp, structural > 0 || len(c.Ops) == 0)
 	rec.Hist("base:" + c.Base)
+	if c.Dirty {
+		rec.Hist("output-dir-not-empty")
+	}
 	rec.Hist("out:" + c.OutStyle)
 	for _, op := range c.Ops {
 		rec.Hist("op:" + op.Kind)
@@ -213,7 +226,7 @@ func TestC12Shipped(t *testing.T) {
 	rec := evid.New("C12/shipped")
 	var cases []*C12Case
 	for _, style := range []string{"relative", "nested", "absolute", "dashed"} {
-		cases = append(cases, &C12Case{Base: "fix44", OutStyle: style, Level: "driver", Twice: true})
+		cases = append(cases, &C12Case{Base: "fix44", OutStyle: style, Level: "driver", Twice: true, Dirty: style == "nested"})
 	}
 	bigLevel := "static"
 	if os.Getenv("VERIF_TIER") == "thorough" {
@@ -242,6 +255,7 @@ func genC12(t *rapid.T) *C12Case {
 	}
 	c.OutStyle = rapid.SampledFrom([]string{"relative", "relative", "nested", "absolute", "dashed"}).Draw(t, "out")
 	c.Twice = rapid.IntRange(0, 2).Draw(t, "twice") == 0
+	c.Dirty = rapid.IntRange(0, 3).Draw(t, "dirty") == 0
 	return c
 }
 
